@@ -181,7 +181,7 @@ def check(run):
     for name, cpu in sorted(cpus.items()):
         dis = cpu.disassemble
         for k in range(len(dis.specs)):
-            tasks.append((name, k, run.seed, 4 if quick else 40, 150 if quick else 5000))
+            tasks.append((name, k, run.seed, 4 if quick else 60, 150))
     with mp.get_context("fork").Pool(14) as pool:
         results = pool.map(worker, tasks, chunksize=1)
     nf = 0
